@@ -1,5 +1,5 @@
-// VERIF-REPLAY {"property": "C17", "harness": "c17_header_range_block", "file": "src/storage/seq_token.rs", "fqn": "storage::seq_token::verif_kani::c17_header_range_block", "failed_checks": [{"d": "assertion failed: r1.is_some() == (kl >= 1 && kl <= MAX_RECOVERABLE_KEY_SIZE_V1)", "loc": {"file": "/verif/kani/seq_token_k.rs", "line": "310", "column": "5"}, "s": "Failure"}, {"d": "assertion failed: r2.is_some() == (kl >= 1 && kl <= MAX_RECOVERABLE_KEY_SIZE)", "loc": {"file": "/verif/kani/seq_token_k.rs", "line": "311", "column": "5"}, "s": "Failure"}]}
-// Re-run with: ./check replay /verif/replays/C17-c17_header_range_block.rs
+// VERIF-REPLAY {"property": "C10", "harness": "c17_header_range_block", "file": "src/storage/seq_token.rs", "fqn": "storage::seq_token::verif_kani::c17_header_range_block", "failed_checks": [{"d": "assertion failed: r1.is_some() == (kl >= 1 && kl <= MAX_RECOVERABLE_KEY_SIZE_V1)", "loc": {"file": "/verif/kani/seq_token_k.rs", "line": "310", "column": "5"}, "s": "Failure"}, {"d": "assertion failed: r2.is_some() == (kl >= 1 && kl <= MAX_RECOVERABLE_KEY_SIZE)", "loc": {"file": "/verif/kani/seq_token_k.rs", "line": "311", "column": "5"}, "s": "Failure"}]}
+// Re-run with: ./check replay /verif/replays/C10-c17_header_range_block.rs
 // (appends this test to a scratch copy of kani/seq_token_k.rs injected into a copy of /repo and runs
 //  `cargo kani playback` in dev and release profiles; Kani stubs are NOT applied natively.)
 /// Test generated for harness `storage::seq_token::verif_kani::c17_header_range_block` 
